@@ -303,7 +303,15 @@ def _csv_reader(ctx: Ctx, mod: Module, rec_name: str) -> None:
                 n.value.args) > 1 else None
             if f and isinstance(k, str):
                 idx_key[f] = k
-    ctx.floor(f"{mod.name.split('.')[-1]}_index_fields", len(idx_key), 4)
+    ctx.count(f"{mod.name.split('.')[-1]}_index_fields", len(idx_key))
+    ctx.ob("D19.1", init, init.node, len(idx_key) >= 4,
+           f"{len(idx_key)} scalar columns are located by csv_column("
+           "columns, KEY)" if len(idx_key) >= 4 else
+           f"only {len(idx_key)} of the 4 scalar columns (n_items, "
+           "n_different_items, bin_width, bin_height) are located by "
+           "csv_column(columns, KEY)",
+           construct=f"{mod.name.split('.')[-1]} scalar columns located")
+    _reader_sanity(ctx, mod, init, parse)
     call = None
     for n in ast.walk(parse.node):
         if isinstance(n, ast.Call) and isinstance(
@@ -351,6 +359,128 @@ def _csv_reader(ctx: Ctx, mod: Module, rec_name: str) -> None:
            "every key the reader looks up is a key the writer emits" if
            not missing else f"reader looks up {missing}, which the writer "
            "never emits", construct=f"{mod.name.split('.')[-1]} key sets")
+
+
+def _fold(e: ast.expr, env: dict[str, Any]) -> Any:
+    """Constant-fold a guard over integer stand-ins (None = unknown)."""
+    if isinstance(e, ast.Constant):
+        return e.value
+    if isinstance(e, ast.Name):
+        return env.get(e.id)
+    if isinstance(e, ast.UnaryOp) and isinstance(e.op, ast.Not):
+        v = _fold(e.operand, env)
+        return None if v is None else not v
+    if isinstance(e, ast.BoolOp):
+        vs = [_fold(v, env) for v in e.values]
+        if any(v is None for v in vs):
+            return None
+        return all(vs) if isinstance(e.op, ast.And) else any(vs)
+    if isinstance(e, ast.BinOp):
+        a, b = _fold(e.left, env), _fold(e.right, env)
+        if not isinstance(a, int) or not isinstance(b, int):
+            return None
+        try:
+            return {ast.Add: a + b, ast.Sub: a - b, ast.Mult: a * b,
+                    ast.BitAnd: a & b, ast.Mod: a % b if b else None,
+                    ast.FloorDiv: a // b if b else None}.get(type(e.op))
+        except (ZeroDivisionError, TypeError):
+            return None
+    if isinstance(e, ast.Compare) and len(e.ops) == 1:
+        a, b = _fold(e.left, env), _fold(e.comparators[0], env)
+        if a is None or b is None:
+            return None
+        op = type(e.ops[0])
+        return {ast.Lt: a < b, ast.LtE: a <= b, ast.Gt: a > b,
+                ast.GtE: a >= b, ast.Eq: a == b,
+                ast.NotEq: a != b}.get(op)
+    if isinstance(e, ast.Call) and ast.unparse(e.func).endswith(
+            ".__len__") and len(e.args) == 1:
+        return _fold(e.args[0], env) if isinstance(
+            e.args[0], ast.Name) else None
+    return None
+
+
+def _reader_sanity(ctx: Ctx, mod: Module, init: FuncInfo,
+                   parse: FuncInfo) -> None:
+    """The reader's own consistency checks accept what the writer writes:
+    two bound columns per objective, at least one objective."""
+    short = mod.name.split(".")[-1]
+    problems: list[str] = []
+    # names of the counters: n = tuple.__len__(self.__X)
+    counters: dict[str, str] = {}
+    for s in func_body(init):
+        if isinstance(s, (ast.Assign, ast.AnnAssign)) and isinstance(
+                s.value, ast.Call) and ast.unparse(s.value.func) in (
+                "tuple.__len__", "len") and s.value.args:
+            f = _self_field(s.value.args[0])
+            tg = s.targets[0] if isinstance(s, ast.Assign) else s.target
+            if f and isinstance(tg, ast.Name):
+                counters[tg.id] = f
+    guards = [s for s in func_body(init) if isinstance(s, ast.If) and s.body
+              and isinstance(s.body[-1], ast.Raise)]
+    n_checked = 0
+    for k in (1, 2, 3, 7):
+        env: dict[str, Any] = {}
+        for nm, f in counters.items():
+            if "objective_bounds" in f:
+                env[nm] = 2 * k
+            elif "objectives" in f:
+                env[nm] = k
+            elif "bin_bounds" in f:
+                env[nm] = 3
+        for g in guards:
+            v = _fold(g.test, env)
+            if v is None:
+                # guards on counted fields written inline
+                t2 = ast.unparse(g.test)
+                if "bin_bounds" in t2:
+                    v = _fold(g.test, {**env})
+                continue
+            n_checked += 1
+            if v:
+                problems.append(
+                    f"`if {ast.unparse(g.test)}: raise` rejects a table "
+                    f"with {k} objective(s) and {2 * k} bound columns, "
+                    "which is what the writer produces")
+    if n_checked < 4:
+        problems.append("the reader's consistency checks could not be "
+                        "evaluated")
+    # optional cells: kept exactly when the cell is non-empty
+    for n in ast.walk(parse.node):
+        if isinstance(n, ast.DictComp):
+            for g in n.generators:
+                for c in g.ifs:
+                    srcc = ast.unparse(c).replace(" ", "")
+                    ok = ("__len__(data[" in srcc or "len(data[" in srcc) \
+                        and (srcc.endswith(">0") or srcc.endswith(">=1")
+                             or srcc.endswith("!=0"))
+                    if not ok:
+                        problems.append(
+                            f"`{ast.unparse(c)}`: an optional cell is not "
+                            "kept exactly when it is non-empty")
+    # objective names: first component of the bound keys
+    for n in ast.walk(init.node):
+        if isinstance(n, ast.SetComp):
+            srcn = ast.unparse(n).replace(" ", "")
+            if "SCOPE_SEPARATOR" in srcn and "split" in srcn:
+                elt = ast.unparse(n.elt).replace(" ", "")
+                conds = [ast.unparse(c).replace(" ", "")
+                         for g in n.generators for c in g.ifs]
+                okn = elt.endswith("[0]") and any(
+                    c_.startswith("list.__len__(") and ">1" in c_
+                    or c_.startswith("len(") and ">1" in c_
+                    or "and" in c_ and ">1" in c_ for c_ in conds)
+                if not okn:
+                    problems.append(
+                        "objective names are not taken as the first "
+                        "component of the scoped bound keys")
+    ctx.ob("D19.1", init, init.node, not problems,
+           f"{short}.CsvReader: its own consistency checks accept the "
+           "writer's tables, optional cells are kept iff non-empty, "
+           "objective names are the first component of the bound keys"
+           if not problems else f"{short}.CsvReader: "
+           + "; ".join(dict.fromkeys(problems))[:700],
+           construct=f"{short} reader consistency checks")
 
 
 # ------------------------------------------------------------------ D19.4
@@ -906,6 +1036,26 @@ def _first_line_forms(ctx: Ctx) -> None:
     ok_w = first_loop is not None and ast.unparse(
         first_loop.iter) == "self.flatten()" and "sep = csv" in src and \
         "csv: Final[str] = CSV_SEPARATOR" in src
+    if ok_w:
+        kv = ast.unparse(first_loop.target)
+        seq = [ast.unparse(b).replace(" ", "") for b in first_loop.body]
+        wname = next((x.split(".write(")[0] for x in seq
+                      if ".write(" in x), "?")
+        sepv = next((ast.unparse(b.targets[0]) for b in first_loop.body
+                     if isinstance(b, ast.Assign)
+                     and ast.unparse(b.value) == "csv"), None)
+        blk0 = next(b for b in _blocks(gp.node) if first_loop in b)
+        pre0 = blk0[:blk0.index(first_loop)]
+        sep_init = [b for b in ast.walk(gp.node) if isinstance(
+            b, (ast.Assign, ast.AnnAssign)) and b.value is not None and
+            ast.unparse(b.targets[0] if isinstance(b, ast.Assign)
+                        else b.target) == (sepv or "?")
+            and b.lineno < first_loop.lineno]
+        ok_w = sepv is not None and seq == [
+            f"{wname}.write({sepv})", f"{wname}.write(str({kv}))",
+            f"{sepv}=csv"] and bool(sep_init) and ast.unparse(
+            sep_init[-1].value) in ("''", '""')
+        del pre0
     # the writer ends the first line before anything else
     after = None
     if first_loop is not None:
@@ -919,7 +1069,8 @@ def _first_line_forms(ctx: Ctx) -> None:
            construct="game plan first line")
     ok_r = _keeps_first_line(gs) and any(
         isinstance(n, ast.Name) and n.id.endswith("SEPARATOR")
-        for n in ast.walk(gs.node)) and _validates_before_return(gs)
+        for n in ast.walk(gs.node)) and _validates_before_return(gs) \
+        and _parses_into_fresh(gs)
     ctx.ob("D19.3", gs, gs.node, ok_r,
            "GamePlanSpace.from_str keeps the text up to the first line "
            "break, splits on CSV_SEPARATOR and validates",
@@ -952,27 +1103,80 @@ def _first_line_forms(ctx: Ctx) -> None:
 
 
 def _keeps_first_line(fi: FuncInfo) -> bool:
-    """`k = t.find("\\n"); if k > 0: t = t[:k]` (any names)."""
+    """`k = t.find("\\n"); if k > 0: t = t[:k]` (any names): the text is
+    cut at the first line break exactly when there is one."""
     pos = None
+    txt = None
     for n in ast.walk(fi.node):
         if isinstance(n, (ast.Assign, ast.AnnAssign)) and isinstance(
                 n.value, ast.Call) and isinstance(
                 n.value.func, ast.Attribute) and n.value.func.attr in (
                 "find", "index") and n.value.args and isinstance(
                 n.value.args[0], ast.Constant) and \
-                n.value.args[0].value == "\n":
+                n.value.args[0].value == "\n" and len(n.value.args) == 1:
             tg = n.targets[0] if isinstance(n, ast.Assign) else n.target
             if isinstance(tg, ast.Name):
                 pos = tg.id
+                txt = ast.unparse(n.value.func.value)
     if pos is None:
         return False
     for n in ast.walk(fi.node):
-        if isinstance(n, ast.Subscript) and isinstance(
-                n.slice, ast.Slice) and n.slice.lower is None and \
-                isinstance(n.slice.upper, ast.Name) and \
-                n.slice.upper.id == pos:
-            return True
+        if isinstance(n, ast.If) and not n.orelse and isinstance(
+                n.test, ast.Compare) and len(n.test.ops) == 1:
+            t = n.test
+            l_, r_ = ast.unparse(t.left), ast.unparse(t.comparators[0])
+            found = (l_ == pos and (
+                (isinstance(t.ops[0], ast.Gt) and r_ in ("0", "-1")) or
+                (isinstance(t.ops[0], ast.GtE) and r_ in ("0", "1")))) or (
+                r_ == pos and isinstance(t.ops[0], ast.Lt)
+                and l_ in ("0", "-1"))
+            if not found:
+                continue
+            for b in n.body:
+                if isinstance(b, ast.Assign) and ast.unparse(
+                        b.targets[0]) == txt:
+                    for x in ast.walk(b.value):
+                        if isinstance(x, ast.Subscript) and ast.unparse(
+                                x.value) == txt and isinstance(
+                                x.slice, ast.Slice) and (
+                                x.slice.lower is None or ast.unparse(
+                                    x.slice.lower) == "0") and isinstance(
+                                x.slice.upper, ast.Name) and \
+                                x.slice.upper.id == pos and \
+                                x.slice.step is None:
+                            return True
     return False
+
+
+def _parses_into_fresh(fi: FuncInfo) -> bool:
+    """x = self.create(); np.copyto(x, np.fromstring(text, dtype=x.dtype,
+    sep=CSV_SEPARATOR).reshape(x.shape)); ...; return x"""
+    xs = [n for n in ast.walk(fi.node) if isinstance(
+        n, (ast.Assign, ast.AnnAssign)) and n.value is not None and
+        ast.unparse(n.value) == "self.create()"]
+    if len(xs) != 1:
+        return False
+    x = ast.unparse(xs[0].targets[0] if isinstance(xs[0], ast.Assign)
+                    else xs[0].target)
+    txt = fi.params[1]
+    ok = False
+    for c in ast.walk(fi.node):
+        if isinstance(c, ast.Call) and ast.unparse(c.func) == "np.copyto" \
+                and len(c.args) == 2 and ast.unparse(c.args[0]) == x:
+            srcx = c.args[1]
+            if isinstance(srcx, ast.Call) and isinstance(
+                    srcx.func, ast.Attribute) and srcx.func.attr == \
+                    "reshape" and [ast.unparse(a) for a in srcx.args] == [
+                    f"{x}.shape"]:
+                srcx = srcx.func.value
+            if isinstance(srcx, ast.Call) and ast.unparse(
+                    srcx.func) == "np.fromstring" and srcx.args and \
+                    ast.unparse(srcx.args[0]) == txt:
+                kw = {k.arg: ast.unparse(k.value) for k in srcx.keywords}
+                ok = kw.get("dtype") == f"{x}.dtype" and kw.get(
+                    "sep", "").endswith("SEPARATOR")
+    rets = [r for r in ast.walk(fi.node) if isinstance(r, ast.Return)]
+    return ok and len(rets) == 1 and ast.unparse(rets[0].value) == x
 
 
 def _validates_before_return(fi: FuncInfo) -> bool:
